@@ -2,6 +2,7 @@ package vc
 
 import (
 	"fmt"
+	"strings"
 	"go/ast"
 	"go/types"
 
@@ -129,6 +130,16 @@ func (fc *FnCtx) loopHeader(li *loopInfo, st *State) *State {
 		fc.oblige("invariant-entry", inv.Label, inv.Tags, g, ec.boolean(inv.E), where, inv.Text)
 	}
 	pre := st
+	// allocation watermark of this loop: below every reference that exists now
+	prevBase := fc.refBase
+	wm := fc.S.Fresh(fmt.Sprintf("wm!%d", li.ord), smt.Int)
+	if prevBase == nil {
+		fc.S.Assert(smt.Le(wm, smt.IntLit(int64(-fc.nextRef))), "loop watermark")
+	} else {
+		fc.S.Assert(smt.Le(wm, smt.App("+", smt.Int, prevBase, smt.IntLit(int64(-fc.nextRef)))), "loop watermark")
+	}
+	fc.refBase = wm
+	li.wm = wm
 	// 2. havoc
 	st2 := st.clone()
 	for _, k := range smt.SortedKeys(li.written) {
@@ -144,9 +155,22 @@ func (fc *FnCtx) loopHeader(li *loopInfo, st *State) *State {
 		}
 		_, vs, _ := smt.ArrParts(hs)
 		for _, rn := range smt.SortedKeys(li.writtenRefs[k]) {
-			fc.setHeapQuiet(st2, k, smt.Store(fc.getHeap(st2, k, vs), li.writtenRefs[k][rn], fc.S.Fresh("hvl_"+k, vs)))
+			ref := li.writtenRefs[k][rn]
+			if ref.Op == "+" && strings.HasPrefix(ref.Args[0].Op, fmt.Sprintf("wm_%d", li.ord)) {
+				continue // allocated inside this loop: does not exist at the header
+			}
+			nv := fc.S.Fresh("hvl_"+k, vs)
+			switch {
+			case vs == smt.Slice:
+				fc.S.Assert(smt.Ge(smt.SlArr(nv), wm), "loop-carried slice lies above the watermark")
+			case vs == smt.Int && fc.refKeys[k]:
+				fc.S.Assert(smt.Ge(nv, wm), "loop-carried reference lies above the watermark")
+			}
+			fc.setHeapQuiet(st2, k, smt.Store(fc.getHeap(st2, k, vs), ref, nv))
 		}
 	}
+	// everything the loop-carried state mentions exists already: it is above the watermark
+	fc.aboveWatermark(li, st2, wm)
 	for _, in := range li.header.Instrs {
 		phi, ok := in.(*ssa.Phi)
 		if !ok {
@@ -366,4 +390,49 @@ func (fc *FnCtx) rangeInit(x *ssa.Range, st *State, g *smt.Term, where string) V
 
 func (fc *FnCtx) rangeNext(x *ssa.Next, st *State, g *smt.Term, where string) Val {
 	return fc.freshVal("next", x.Type())
+}
+
+// aboveWatermark: references held by loop-carried values (header phis and
+// the heap maps havocked at the header) are >= wm.
+func (fc *FnCtx) aboveWatermark(li *loopInfo, st *State, wm *smt.Term) {
+	for _, in := range li.header.Instrs {
+		phi, ok := in.(*ssa.Phi)
+		if !ok {
+			break
+		}
+		v := fc.vals[phi]
+		if v.T == nil {
+			continue
+		}
+		switch kindOf(phi.Type()) {
+		case KRef, KPtr:
+			fc.S.Assert(smt.Ge(v.T, wm), "")
+		case KSlice:
+			fc.S.Assert(smt.Ge(smt.SlArr(v.T), wm), "")
+		}
+	}
+	for _, k := range smt.SortedKeys(li.written) {
+		hs, ok := fc.heapSorts[k]
+		if !ok {
+			continue
+		}
+		_, vs, _ := smt.ArrParts(hs)
+		h, ok := st.H[k]
+		if !ok {
+			continue
+		}
+		r := smt.Const("r!w", smt.Int)
+		sel := smt.Select(h, r)
+		switch {
+		case vs == smt.Slice:
+			fc.S.Assert(smt.Forall([]*smt.Term{r}, smt.Ge(smt.SlArr(sel), wm), []*smt.Term{sel}), "loop-carried slices lie above the watermark")
+		case vs == smt.Int && fc.refValuedKey(k):
+			fc.S.Assert(smt.Forall([]*smt.Term{r}, smt.Ge(sel, wm), []*smt.Term{sel}), "loop-carried references lie above the watermark")
+		}
+	}
+}
+
+// refValuedKey: does heap key k hold references (as opposed to integers)?
+func (fc *FnCtx) refValuedKey(k string) bool {
+	return fc.refKeys[k]
 }
